@@ -1,3 +1,4 @@
+import sys
 from fractions import Fraction
 from rtamt.semantics.time_interpreter import TimeInterpreter
 from rtamt.exception.exception import RTAMTException
@@ -140,5 +141,8 @@ class DiscreteTimeInterpreter(TimeInterpreter):
 
         b = int(b)
         e = int(e)
+
+        if e >= sys.maxsize:
+            raise RTAMTException('The operator bound is too large: more sampling periods than a monitor can count')
 
         return b, e
